@@ -49,6 +49,8 @@ def gen_spec(rng, cfg):
                 return "_%s_%s" % (nm, salt)     # a data attribute whose name starts with an underscore
             return "%s_%s" % (nm, salt)
         r = rng.random()
+        if ctype == "npdict":
+            return "%s%s" % (nm, salt)          # string keys, handed over as numpy.str_ (as when taken from an array of names)
         if cfg.get("npkeys") and r < 0.06 and not boolkey[0]:
             boolkey[0] = True
             return True              # a bool key in a dict
@@ -79,6 +81,8 @@ def gen_spec(rng, cfg):
                 ct = rng.choice(choices)
                 if ct == "list" and cfg.get("npkeys") and rng.random() < 0.5:
                     ct = "nplist"       # a list whose elements are addressed with numpy integer keys
+                if ct == "dict" and cfg.get("npkeys") and rng.random() < 0.4:
+                    ct = "npdict"       # a dict whose string keys are addressed with numpy.str_ keys
                 out.append((key_for(ctype), (ct, children(ct, sub, depth + 1))))
                 left -= sub
             else:
@@ -91,6 +95,8 @@ def gen_spec(rng, cfg):
     labels = ["r", "o", "g", "s", "t"]
     for i in range(n_roots):
         mode, ctype = rng.choice(kinds)
+        if ctype == "dict" and mode == "ref" and cfg.get("npkeys") and rng.random() < 0.3:
+            ctype = "npdict"
         label = "%s%s" % (labels[i], salt if cfg.get("salt_labels", True) else "")
         roots.append((label, mode, ctype, children(ctype, max(share[i], 1), 1)))
     return Spec(tuple(roots), funcs=cfg.get("funcs", True))
